@@ -126,5 +126,10 @@ Definition dispatch_c17 (fn : N) (args : list sexp) : sexp :=
     | Some nodes => enc_bool (@flow_ok UU nodes)
     | None => s_badinput
     end
+  | 6, [nodes] =>
+    match dec_list dec_node nodes with
+    | Some nodes => enc_bool (@flow_wf UU nodes)
+    | None => s_badinput
+    end
   | _, _ => s_badinput
   end.
